@@ -62,6 +62,14 @@ theorem Simplify_preserves_partial (ctx : List Shard) (q : Q) (hq : hasEmptyBran
     eval (simplify q) ctx s d = eval q ctx s d :=
   (simplify_pres rfl (scope_incorpus ctx) (incorpus_live ctx) q (by simpa [hasEmptyBranch] using hq)).2 s d h
 
+/-- **`Simplify` terminates at a fixpoint**: the model's loop fuel (node count + 1) is never exhausted — the result
+    is a tree that `flatten` reports unchanged; each changing `flatten` step removes at least one node -/
+theorem Simplify_terminates (q : Q) : (flatten (simplify q)).2 = false :=
+  flattenLoop_fixpoint _ _ (by omega)
+
+theorem flatten_decreases (q : Q) (h : (flatten q).2 = true) : size (flatten q).1 < size q :=
+  (flatten_size q).2 h
+
 /-- **per-shard simplification against repository metadata** (`indexData.simplify`): for every shard (any mix of
     tombstoned and live repositories, format feature version ≥ 12), every tree without `type:repo` nodes (they
     never reach a shard) and without empty `Branch` patterns, and every document of a non-tombstoned repository
